@@ -140,6 +140,12 @@ def run(tier, seed):
                     k += 1
                     gdocs.append(json.dumps({"id": cid, "cfg": cfg, "ty": "Color", "text": name}))
                     gmeta[cid] = (ty, cls, cfg, name, name)
+                import vgen
+                for name in (vgen.GRAMMAR_VALUES if cls == "listed" else ["SHA_257", "HTTP_1", "B"]):
+                    cid = "g%d" % k
+                    k += 1
+                    gdocs.append(json.dumps({"id": cid, "cfg": cfg, "ty": "Grammar", "text": name}))
+                    gmeta[cid] = (ty, cls, cfg, name, name)
             continue
         if ty == "alias":
             m = {"ofstring": ("PlStr", "string", "ascii"), "ofdouble": ("PlDbl", "double", "needs17"), "ofaliasofstring": ("PlPlStr", "string", "unicode"),
